@@ -739,6 +739,10 @@ func (g *Gen) typeAssert(x *ssa.TypeAssert) Val {
 	ok := fmt.Sprintf("(= (iface.type %s) %d)", v.S, tag)
 	res := Val{T: x.AssertedType, S: g.define("ta", sort, fmt.Sprintf("(%s %s)", unbox, v.S))}
 	g.assume(fmt.Sprintf("(=> %s %s)", ok, g.rangeOf(x.AssertedType, res.S, g.cur)))
+	if _, isPtr := x.AssertedType.Underlying().(*types.Pointer); isPtr {
+		g.uf("iface.ref", []string{"Iface"}, "Int")
+		g.assume(fmt.Sprintf("(=> %s (= %s (iface.ref %s)))", ok, res.S, v.S))
+	}
 	if x.CommaOk {
 		res.S = g.define("ta", sort, fmt.Sprintf("(ite %s %s %s)", ok, res.S, g.zero(x.AssertedType)))
 		return Val{T: x.Type(), Tuple: []Val{res, {T: types.Typ[types.Bool], S: ok}}}
@@ -753,6 +757,15 @@ func (g *Gen) alloc(x *ssa.Alloc) Val {
 	case *types.Struct:
 		r := g.allocRef(g.cur)
 		g.storeStruct(g.cur, elem, r, g.zero(elem))
+		// ghost fields declared "zero:<type>" start at zero for a newly allocated object of that type
+		for _, gd := range g.E.contracts.Ghosts {
+			if gd.Kind == "field" && gd.ZeroFor == typeID(elem) {
+				heap, _, _, valT := g.ghostHeap(gd)
+				if valT != nil {
+					g.heapSet(g.cur, heap, fmt.Sprintf("(store %s %s %s)", g.heapGet(g.cur, heap), r, g.zero(valT)))
+				}
+			}
+		}
 		return Val{T: x.Type(), S: r}
 	case *types.Array:
 		r := g.allocRef(g.cur)
